@@ -43,8 +43,10 @@ func checkC04(c *Ctx) {
 	// the same kind of recording, narrower index clusters, additionally validated at array level (DenseImpl.tla, real overhead 64)
 	c.runStoreTraces(c.pick(12, 100), traceGenOpts{Layout: true, MaxWidth: 60, Events: c.pick(300, 1500), Kinds: []string{"dense", "dense", "sparse", "paged"},
 		Ops: []string{"Add", "AddWithCount", "AddBin", "AddRepeat", "Merge", "CopyTo", "Clear", "Reweight", "EncDec", "Proto", "Read"}}, "dense stores, array layout")
-	// paginated stores only, single-append operations: the whole history stays tracked by PagedImpl.tla (buffer, capacity,
-	// compaction trigger, page slice, allocated pages, minPageIndex) with the real constants
+	// paginated stores only: the whole history stays tracked by PagedImpl.tla (buffer, capacity, compaction trigger, page
+	// slice, allocated pages, minPageIndex) with the real constants, through bulk adds, same-kind merges and decodes of a
+	// paginated store's own encoding too (Go's append policy is modelled as PagedImpl!GoCap and checked against every
+	// logged capacity)
 	c.runStoreTraces(c.pick(8, 60), traceGenOpts{Layout: true, MaxWidth: 60, Events: c.pick(700, 3000), Kinds: []string{"paged"},
-		Ops: []string{"Add", "Add", "Add", "Add", "Add", "Add", "Add", "Add", "AddWithCount", "AddBin", "CopyTo", "Clear", "Reweight", "Read"}}, "paginated stores, page layout")
+		Ops: []string{"Add", "Add", "Add", "Add", "Add", "Add", "Add", "Add", "AddWithCount", "AddBin", "AddRepeat", "AddRepeat", "Merge", "EncDec", "CopyTo", "Clear", "Reweight", "Read"}}, "paginated stores, page layout")
 }
